@@ -1,3 +1,6 @@
+\* behaviour export: single-cut table of the 13-event reference stream (ids spelled as the SDK server spells them)
+\* (tools/checks/c09.py builds its configurations from the same template; this file is the thorough-tier one, for manual runs:
+\*  java -cp $TLA_CP tlc2.TLC -config StreamCli_gen1L.cfg StreamCliMC)
 SPECIFICATION Spec
 CONSTANTS
   KindSet = {"post"}
